@@ -12,6 +12,7 @@ import (
 	"strings"
 
 	"deps.dev/util/resolve"
+	"deps.dev/util/resolve/dep"
 	"deps.dev/util/resolve/schema"
 	"github.com/google/osv-scalibr/extractor"
 	"github.com/ossf/osv-schema/bindings/go/osvschema"
@@ -61,6 +62,9 @@ type Scenario struct {
 	Manifest []MReq     `json:"manifest"`
 	Vulns    []SVuln    `json:"vulns"`
 	Opts     SOpts      `json:"opts"`
+	// Layout: pom.xml layout variant: "" | "profile-mgmt" (an inactive profile with its own dependencyManagement)
+	// | "profile-mgmt-active" (the same, activeByDefault) | "profile-props" (a profile with properties only)
+	Layout string `json:"layout,omitempty"`
 }
 
 type Case struct {
@@ -108,7 +112,7 @@ const rootMavenG, rootMavenA = "verif", "root"
 
 // renderManifest writes the abstract manifest (ordered requirement list) as package.json / pom.xml.
 // This is the harness's own renderer; it shares nothing with the writers under test.
-func renderManifest(eco string, reqs []MReq) (name string, content string) {
+func renderManifest(eco string, reqs []MReq, layout string) (name string, content string) {
 	if eco == "Maven" {
 		var b strings.Builder
 		b.WriteString("<project>\n  <modelVersion>4.0.0</modelVersion>\n")
@@ -142,7 +146,20 @@ func renderManifest(eco string, reqs []MReq) (name string, content string) {
 				dep(r, "    ")
 			}
 		}
-		b.WriteString("  </dependencies>\n</project>\n")
+		b.WriteString("  </dependencies>\n")
+		if strings.HasPrefix(layout, "profile-") {
+			b.WriteString("  <profiles>\n    <profile>\n      <id>extra</id>\n")
+			if layout == "profile-mgmt-active" {
+				b.WriteString("      <activation>\n        <activeByDefault>true</activeByDefault>\n      </activation>\n")
+			}
+			if layout == "profile-props" {
+				b.WriteString("      <properties>\n        <extra.version>1.0.0</extra.version>\n      </properties>\n")
+			} else {
+				b.WriteString("      <dependencyManagement>\n        <dependencies>\n          <dependency>\n            <groupId>pkg</groupId>\n            <artifactId>unrelated</artifactId>\n            <version>1.0.0</version>\n          </dependency>\n        </dependencies>\n      </dependencyManagement>\n")
+			}
+			b.WriteString("    </profile>\n  </profiles>\n")
+		}
+		b.WriteString("</project>\n")
 		return "pom.xml", b.String()
 	}
 	var b strings.Builder
@@ -169,11 +186,11 @@ func renderManifest(eco string, reqs []MReq) (name string, content string) {
 	return "package.json", b.String()
 }
 
-func writeManifest(dir, eco string, reqs []MReq) (string, error) {
+func writeManifest(dir, eco string, reqs []MReq, layout string) (string, error) {
 	if err := os.MkdirAll(dir, 0o755); err != nil {
 		return "", err
 	}
-	name, content := renderManifest(eco, reqs)
+	name, content := renderManifest(eco, reqs, layout)
 	p := filepath.Join(dir, name)
 	return p, os.WriteFile(p, []byte(content), 0o644)
 }
@@ -184,6 +201,7 @@ func writeManifest(dir, eco string, reqs []MReq) (string, error) {
 type Upd struct {
 	Name, From, To string
 	Transitive     bool
+	Alias          string // npm: the manifest key when the requirement is an alias ("key": "npm:Name@From")
 }
 
 func applyUpdates(eco string, reqs []MReq, ups []Upd) []MReq {
@@ -191,9 +209,22 @@ func applyUpdates(eco string, reqs []MReq, ups []Upd) []MReq {
 	for _, u := range ups {
 		found := false
 		for i := range out {
-			if out[i].Name == u.Name {
-				out[i].Req = u.To
-				found = true
+			switch {
+			case eco == "npm" && u.Alias != "":
+				if out[i].Name == u.Alias && strings.HasPrefix(out[i].Req, "npm:"+u.Name+"@") {
+					out[i].Req = "npm:" + u.Name + "@" + u.To
+					found = true
+				}
+			case eco == "npm":
+				if out[i].Name == u.Name && !strings.HasPrefix(out[i].Req, "npm:") {
+					out[i].Req = u.To
+					found = true
+				}
+			default:
+				if out[i].Name == u.Name {
+					out[i].Req = u.To
+					found = true
+				}
 			}
 		}
 		if !found {
@@ -344,10 +375,13 @@ func graphNodes(g *resolve.Graph) []GNode {
 
 // resolvedVersion: the version `name` resolves to in g: the node a root edge for that name points to,
 // else the unique node of that name. ok=false if absent, ambiguous=true if several versions and no root edge.
-func resolvedVersion(g *resolve.Graph, name string) (ver string, ok bool, ambiguous bool) {
+func resolvedVersion(g *resolve.Graph, name string, alias string) (ver string, ok bool, ambiguous bool) {
 	for _, e := range g.Edges {
 		if e.From == 0 && g.Nodes[e.To].Version.Name == name {
-			return g.Nodes[e.To].Version.Version, true, false
+			ka, _ := e.Type.GetAttr(dep.KnownAs)
+			if ka == alias {
+				return g.Nodes[e.To].Version.Version, true, false
+			}
 		}
 	}
 	seen := map[string]bool{}
